@@ -5,22 +5,23 @@ EXTENDS Integers, Sequences
 
 V(k, v) == [k |-> k, v |-> v]
 
-MCPoolA == << [pat |-> "a", sel |-> "s1", failAt |-> 1],
-              [pat |-> "a", sel |-> "s2", failAt |-> 0],
-              [pat |-> "*", sel |-> "s1", failAt |-> 2],
-              [pat |-> "b", sel |-> "s2", failAt |-> 0] >>
+MCPoolA == << [pat |-> "a", sel |-> "s1", failAt |-> 1, hide |-> FALSE],
+              [pat |-> "a", sel |-> "s2", failAt |-> 0, hide |-> TRUE],
+              [pat |-> "*", sel |-> "s1", failAt |-> 2, hide |-> TRUE],
+              [pat |-> "b", sel |-> "s2", failAt |-> 0, hide |-> FALSE] >>
 \* adjacent matching subscribers, all failing, wildcard first
-MCPoolB == << [pat |-> "*", sel |-> "s2", failAt |-> 1],
-              [pat |-> "a", sel |-> "s1", failAt |-> 1],
-              [pat |-> "a", sel |-> "s1", failAt |-> 2],
-              [pat |-> "b", sel |-> "s2", failAt |-> 1] >>
+MCPoolB == << [pat |-> "*", sel |-> "s2", failAt |-> 1, hide |-> FALSE],
+              [pat |-> "a", sel |-> "s1", failAt |-> 1, hide |-> TRUE],
+              [pat |-> "a", sel |-> "s1", failAt |-> 2, hide |-> FALSE],
+              [pat |-> "b", sel |-> "s2", failAt |-> 1, hide |-> TRUE] >>
 \* two adjacent subscribers matching "a", the first failing at once; a wildcard failing on its 2nd delivery
-MCPoolC == << [pat |-> "a", sel |-> "s1", failAt |-> 1],
-              [pat |-> "a", sel |-> "s2", failAt |-> 0],
-              [pat |-> "*", sel |-> "s1", failAt |-> 2] >>
-\* selection id -> <<responseKey, fieldName>>; s2 uses an alias and two fields
-MCSelKeys == [ s1 |-> << <<"name", "name">> >>,
-               s2 |-> << <<"n", "n">>, <<"t", "name">> >> ]
+MCPoolC == << [pat |-> "a", sel |-> "s1", failAt |-> 1, hide |-> TRUE],
+              [pat |-> "a", sel |-> "s2", failAt |-> 0, hide |-> FALSE],
+              [pat |-> "*", sel |-> "s1", failAt |-> 2, hide |-> FALSE] >>
+\* selection id -> <<responseKey, fieldName, condition>>; s2 uses an alias and two fields; both have a key whose presence
+\* depends on the variable $hide of the subscriber's own request
+MCSelKeys == [ s1 |-> << <<"name", "name", "">>, <<"n", "n", "incl">> >>,
+               s2 |-> << <<"n", "n", "skip">>, <<"t", "name", "">> >> ]
 MCEvVals == [ e1 |-> [name |-> V("str", "one"), n |-> V("int", 1)],
               e2 |-> [name |-> V("str", "two"), n |-> V("int", 2)] ]
 
